@@ -366,7 +366,7 @@ func cmdCheck(id string, args []string) int {
 				knownLines = append(knownLines, fmt.Sprintf("KNOWN-FINDING: property=%s %s %s", id, v.Finding, findingText(kf, v.Finding)))
 			}
 		}
-		if e.paths == 0 && r.Cfg.Twin == "" {
+		if e.paths == 0 && r.Cfg.Twin == "" && len(e.known) == 0 {
 			inconclusive = append(inconclusive, fmt.Sprintf("%s: no path completed", fn))
 		}
 		if e.unwindHits > 0 {
